@@ -17,8 +17,8 @@ only when they are advanced).  `stepPure` is the stateless reference: it keeps n
 each generator's own position and computes every answer from the definition alone with the
 functions of C13/C14 (`countWordsOfLength`, `wordsOfLength`, `cardinality`, `successors`, …).
 
-Theorems: `Inv` (every populated level is the table of that level, every memo entry is the
-value computed from the definition) holds initially and is kept by every call; under `Inv`
+Theorems: `CacheInv` (every populated level is the table of that level, every memo entry is the
+value computed from the definition) holds initially and is kept by every call; under `CacheInv`
 every call returns the stateless answer; hence for **every finite history** the answers of
 the cached instance are those of the stateless reference (`C20_history`), and the answer to
 any plain query after any history equals its answer on a fresh object (`C20_fresh`).
@@ -36,14 +36,14 @@ open AV AV.DFA
 variable {σ α : Type} [DecidableEq σ] [DecidableEq α]
 
 /-- The invariant holds for a freshly constructed object. -/
-theorem C20_inv_init (d : DFA σ α) (key : α → Int) : d.Inv key (Inst.fresh : Inst σ α) :=
-  inv_fresh d key
+theorem C20_inv_init (d : DFA σ α) (key : α → Int) : d.CacheInv key (Inst.fresh : Inst σ α) :=
+  cacheInv_fresh d key
 
 /-- Every public call keeps the invariant and answers exactly like the stateless reference
 (same answer, same generator positions). -/
 theorem C20_step (d : DFA σ α) (key : α → Int) (ext : Nat → Nat) (s : Inst σ α)
-    (h : d.Inv key s) (q : Query α) :
-    d.Inv key (d.step key ext s q).1 ∧
+    (h : d.CacheInv key s) (q : Query α) :
+    d.CacheInv key (d.step key ext s q).1 ∧
       (d.step key ext s q).2 = (d.stepPure key ext s.gens q).2 ∧
       (d.step key ext s q).1.gens = (d.stepPure key ext s.gens q).1 := by
   have := step_sim ext h q
@@ -51,13 +51,13 @@ theorem C20_step (d : DFA σ α) (key : α → Int) (ext : Nat → Nat) (s : Ins
 
 /-- The invariant survives every finite history. -/
 theorem C20_inv_history (d : DFA σ α) (key : α → Int) (ext : Nat → Nat) (qs : List (Query α)) :
-    ∀ (s : Inst σ α), d.Inv key s → d.Inv key (d.afterHistory key ext s qs) := by
+    ∀ (s : Inst σ α), d.CacheInv key s → d.CacheInv key (d.afterHistory key ext s qs) := by
   induction qs with
   | nil => intro s h; exact h
   | cons q qs ih => intro s h; exact ih _ (step_sim ext h q).1
 
 theorem gens_afterHistory_fresh (d : DFA σ α) (key : α → Int) (ext : Nat → Nat)
-    (qs : List (Query α)) (s : Inst σ α) (h : d.Inv key s) :
+    (qs : List (Query α)) (s : Inst σ α) (h : d.CacheInv key s) :
     d.runHistory key ext s qs = d.runPure key ext s.gens qs := by
   induction qs generalizing s with
   | nil => rfl
@@ -75,7 +75,7 @@ of answers is the list of answers of the stateless reference, which recomputes e
 from the definition. -/
 theorem C20_history (d : DFA σ α) (key : α → Int) (ext : Nat → Nat) (qs : List (Query α)) :
     d.runHistory key ext Inst.fresh qs = d.runPure key ext [] qs :=
-  gens_afterHistory_fresh d key ext qs Inst.fresh (inv_fresh d key)
+  gens_afterHistory_fresh d key ext qs Inst.fresh (cacheInv_fresh d key)
 
 /-- Queries whose answer is a plain value (everything except creating or advancing a
 generator object, whose "answer" is a position in the instance's generator table). -/
@@ -102,8 +102,8 @@ theorem C20_fresh (d : DFA σ α) (key : α → Int) (ext : Nat → Nat) (hist :
     (q : Query α) (hq : Plain q) :
     (d.step key ext (d.afterHistory key ext Inst.fresh hist) q).2 =
       (d.step key ext Inst.fresh q).2 := by
-  have h1 := C20_inv_history d key ext hist Inst.fresh (inv_fresh d key)
-  rw [(C20_step d key ext _ h1 q).2.1, (C20_step d key ext _ (inv_fresh d key) q).2.1]
+  have h1 := C20_inv_history d key ext hist Inst.fresh (cacheInv_fresh d key)
+  rw [(C20_step d key ext _ h1 q).2.1, (C20_step d key ext _ (cacheInv_fresh d key) q).2.1]
   exact stepPure_plain d key ext _ _ q hq
 
 /-- Counting after any history returns the count computed from the definition — in particular
@@ -112,7 +112,7 @@ theorem C20_count_any_order (d : DFA σ α) (key : α → Int) (ext : Nat → Na
     (k : Nat) :
     (d.step key ext (d.afterHistory key ext Inst.fresh hist) (.count k)).2 =
       .nat (d.countWordsOfLength k) := by
-  have h1 := C20_inv_history d key ext hist Inst.fresh (inv_fresh d key)
+  have h1 := C20_inv_history d key ext hist Inst.fresh (cacheInv_fresh d key)
   rw [(C20_step d key ext _ h1 (.count k)).2.1]
   rfl
 
@@ -127,7 +127,7 @@ theorem C20_cached_methods (d : DFA σ α) (key : α → Int) (ext : Nat → Nat
     (d.step key ext s .isEmpty).2 = .bool d.isEmpty ∧
     (d.step key ext s .isFinite).2 = ansOfRes .bool d.isFinite := by
   intro s
-  have h1 := C20_inv_history d key ext hist Inst.fresh (inv_fresh d key)
+  have h1 := C20_inv_history d key ext hist Inst.fresh (cacheInv_fresh d key)
   refine ⟨?_, ?_, ?_, ?_, ?_, ?_⟩ <;> rw [(C20_step d key ext s h1 _).2.1] <;> rfl
 
 /-! ### partially consumed `words_of_length` generators -/
@@ -254,12 +254,12 @@ any coherent state (e.g. after any history).  Whatever other calls are interleav
 — other generators, counts of other lengths, `clear_cache` — the successive `next(g)` calls
 deliver exactly the words of length `k` in order, each once, then `StopIteration`. -/
 theorem C20_words_generator (d : DFA σ α) (key : α → Int) (ext : Nat → Nat) (s : Inst σ α)
-    (hs : d.Inv key s) (k : Nat) (qs : List (Query α)) :
+    (hs : d.CacheInv key s) (k : Nat) (qs : List (Query α)) :
     let s' := (d.step key ext s (.wordsOpen k)).1
     nextAnswers s.gens.length qs (d.runHistory key ext s' qs) =
       wordsStream (d.wordsOfLength key k) (countNext s.gens.length qs) := by
   intro s'
-  have hs' : d.Inv key s' := (step_sim ext hs (.wordsOpen k)).1
+  have hs' : d.CacheInv key s' := (step_sim ext hs (.wordsOpen k)).1
   rw [gens_afterHistory_fresh d key ext qs s' hs']
   exact runPure_wordsGen d key ext s.gens.length qs s'.gens (.wordsNew k) _
     (by simp [s', step]) rfl
